@@ -14,6 +14,11 @@ TRUSTED = [
     "are about; the actor that records before applying is covered by C09_record_first_recovery_refuted (open finding)",
     "sequential histories: one step at a time (blocking asks from one goroutine), restart decided at once by the supervisor; "
     "lifecycle interleavings are C03-C05's subject",
+    "storage faults: what is quantified is ANY SUBSET OF THE Storage.Save CALLS of a history returning an error and leaving the storage "
+    "exactly as it was (operations PersistF / FailF / StopRecreateF of the model; the fault switch of the harness's recording storage, "
+    "which returns the error without delegating). NOT covered: a failing Load or Clear, a Save that fails after a partial write or that "
+    "succeeds but reports an error, a storage that loses or reorders records on its own; the storage is MemoryStorage or a map storage "
+    "that keeps a copy with spare capacity (harness), one record per persistence name",
     "hand-written machine coq/C09/OrderModel.v (the routine that ends a generation = the list of its statements; persist = begin + commit; "
     "observers on other goroutines; OnLaunch posted to the own mailbox is processed after the routine has returned — mailbox/lock_free.go "
     "handles one message at a time); tie T3 (harness/translate/c09order, go/ast, syntactic, engine/vivid/actor_context.go of the tree under "
@@ -31,13 +36,19 @@ TRUSTED = [
 FINDING = "C09-snapshot-before-apply"
 MANIFEST = {
     "text": "For every snapshot threshold (also changed at re-creation), every capacity growth policy of the journal slice and every "
-            "history of events, supervised restarts, stop + re-create cycles under one persistence name, explicit persists and queries: "
-            "the state of the new actor instance after each launch equals the state the old one had when it persisted, which is the list "
-            "of all recorded events in order (any number of generations); the messages delivered during recovery are the last snapshot "
-            "followed by exactly the events recorded since, in order, each once; replay leaves the journal and the event count unchanged; "
+            "history of events, supervised restarts, stop + re-create cycles under one persistence name, explicit persists and queries, "
+            "in which ANY SUBSET OF THE SAVES FAILS (Storage.Save returns an error and leaves the storage as it was): "
+            "the state of the new actor instance after each launch equals the state the actor had at its last SUCCESSFUL persist (the "
+            "empty state if there never was one) - without failing saves that is the state the old instance had, the list of all recorded "
+            "events in order (any number of generations); the messages delivered during recovery are the stored snapshot followed by "
+            "exactly the events recorded between it and that persist, in order, each once; replay leaves the journal and the event count "
+            "unchanged; nothing that happens without a successful save (events appended in place over a truncated journal, failing "
+            "persists, failing restarts) changes what Load returns; "
             "StateChanged leaves ctx.Message()/ctx.Sender() unchanged in every context. Proved in Coq for an executable model with an "
-            "explicit heap of slice backing arrays (MemoryStorage keeps the caller's slice: the aliasing is proved unobservable), by "
-            "refinement to an abstract journal; the model is run against the real ActorSystem on every check. "
+            "explicit heap of slice backing arrays (the stored record is proved separated from the journal's array; MemoryStorage keeping "
+            "the caller's slice, State.Load adopting the storage's slice and State.Load keeping the journal when nothing is stored are "
+            "each refuted by a history with a failing save), by refinement to an abstract journal with the stored record; the model is "
+            "run against the real ActorSystem on every check, with a storage whose saves fail on command. "
             "Ordering across goroutines: for a storage whose Save is not instantaneous (begin, commit; Load returns the committed record) "
             "and observers that re-create the actor under the same persistence name the moment the end of a generation is observable "
             "(unregistration, Terminated notice to a watcher or the parent, the closed signal behind Shutdown, the launch of the new "
@@ -47,14 +58,18 @@ MANIFEST = {
             "asynchronous persist are refuted by schedules. On every run the statement order of tryTerminated and tryRestarted is extracted "
             "from the tree under test (go/ast) and proved to satisfy that condition, and a real ActorSystem with a slow storage is driven "
             "through generations re-created inside OnTerminated (parent, watcher) and right after Shutdown returns.",
-    "note": "Theorems are about the repaired code (fixes/C09-journal-seed.patch, fixes/C09-restore-message.patch; the unrepaired tree "
-            "fails the check with replay files) and about the actor that applies an event before recording it; for the actor that "
+    "note": "Theorems are about the repaired code (fixes/C09-journal-seed.patch, fixes/C09-restore-message.patch, "
+            "fixes/C09-memory-storage-copy.patch, fixes/C09-no-record-resets-journal.patch; a tree without one of them "
+            "fails the check with replay files) and about the actor that applies an event before recording it. Storage faults: any "
+            "subset of the Save calls fails cleanly; a failing Load or Clear, partial writes and a Save that fails after having written "
+            "are not modelled. For the actor that "
             "records first the property is refuted in the model and on the implementation (checks/c09_findings.json). Trusted: the "
             "hand-written models (tied by differential runs and, for the order of the termination/restart routines, by a syntactic "
             "extraction), the harness, sequential driving of the system in the history runs, real-time latencies in the notice runs.",
-    "technique": "Coq proof (heap/slice model refines an abstract journal, induction over histories; interleaving machine with two-step Save, "
+    "technique": "Coq proof (heap/slice model with failing saves refines an abstract journal with the stored record, separation invariant, "
+                 "induction over histories; interleaving machine with two-step Save, "
                  "invariant) + go/ast extraction of the statement order (vm_compute obligation) + differential runs on the real ActorSystem "
-                 "+ Go-side monitors",
+                 "with fault injection in the storage + Go-side monitors",
 }
 
 T3_NAMES = ["C09_source_terminate_order", "C09_source_restart_order", "C09_source_persist_synchronous",
